@@ -15,11 +15,11 @@ HARNESS = ["console/c19_trace_test.go"]
 PKG = "device/video/console"
 DEVS = {"ScrollCopiesPadding": "C19_DEV_SCROLLPAD", "Pack32HighByte": "C19_DEV_PACK32", "VgaWriteBg15": "C19_DEV_VGABG15"}
 ALL_BUGS = ["FillClipWraps", "ScrollCopiesPadding", "WriteXGe", "OffsetIgnoresLogo", "MaskNotReset", "Pack15As16",
-            "ScrollCopiesLogo", "FillClipWidthAgainstRows", "GridIgnoresLogo", "VgaBg15"]
+            "ScrollCopiesLogo", "FillClipWidthAgainstRows", "GridIgnoresLogo", "VgaBg15", "VgaColor16"]
 ASSUME = [
     "the grid has at least one column and one row (the framebuffer holds at least one glyph cell below the logo), pitch >= width * bytes per pixel, the logo fits inside the framebuffer",
     "colour masks are 1-8 bits wide, do not overlap and lie inside the pixel; only bits covered by a mask are constrained in a painted pixel (bit 15 of a 15-bpp pixel and the X byte of an XRGB pixel are don't-care bits)",
-    "text console colours are palette indices 0-15 (the statement gives no meaning to larger indices in a 4-bit attribute field); Fill content of a text cell is the console's clear character in the requested colours",
+    "text console: Write with a colour index above 15 must store the console's default colour (documented on Write; DefaultColors() is logged per case); Fill documents nothing for indices above 15, so for those only the extent of the change is constrained; Fill content of a text cell is the console's clear character in the requested colours; the framebuffer palette has 256 entries, every uint8 is a valid index",
     "visible pixels that belong to no cell (the margin right of the last whole cell column and the pixel rows below the last whole text line) are unconstrained for every operation: the statement speaks about cells; they only have to stay inside the framebuffer and are not padding",
     "Scroll: the vacated lines are unconstrained (the caller repaints them); logo rows and row padding must keep their bytes",
     "trusted Go: construction of the consoles through DriverInit/SetLogo/SetFont over host memory, the diff/guard projection and the event writer in harness/console (no expected results in them); a periodic full checkpoint cross-checks the diff projection against the monitor's reconstruction",
@@ -34,6 +34,8 @@ PINNED = [
     dict(VGA43, id=901, calls=[[1, 1, 2, 1, M32 - 1, 7, 1]]),                 # y+height-1 wraps: index out of range
     dict(VGA43, id=902, calls=[[1, 2, 1, M32 - 1, 1, 7, 1]]),                 # x+width-1 wraps: nothing filled
     dict(VGA43, id=903, calls=[[0, 65, 7, 15, 2, 2]]),                        # background 15 stored as 0
+    dict(VGA43, id=909, calls=[[0, 65, 16, 0, 1, 1], [0, 66, 7, 16, 2, 1], [0, 67, 16, 16, 3, 1], [0, 68, 255, 128, 4, 1],
+                               [1, 1, 3, 2, 1, 16, 1], [1, 3, 3, 2, 1, 7, 255]]),   # colours beyond the 16-entry palette
     dict(VGA43, id=904, calls=[[1, 4, 3, M32 - 2, M32 - 2, 3, 2], [1, 0, 0, M32 - 1, M32 - 1, 3, 2]]),
     dict(FB16, id=905, calls=[[2, 0, 1], [2, 1, 1]]),                         # scroll rewrites row padding
     dict(FB16, id=906, calls=[[1, 2, 2, 0, M32 - 1, 0, 9]]),                  # ~2^32 iterations of an empty row loop
